@@ -7,7 +7,9 @@ observable of every live continuum is compared with the model:
 
 * annotators alphabetically; each annotator's units without duplicates in the
   documented strict total order (start, end, label with None first); the same
-  through iter(), iter_annotator(), [] ; num_units, len(), bool();
+  through iter(), iter_annotator(), [] ; num_units, len(), bool(); the derived
+  counts avg/max_num_annotations_per_annotator, avg_length_unit and
+  category_weights equal the model's;
 * categories cover every label in use (and hold nothing never added); a copy
   carries its source's categories, a merge carries self's categories plus the
   labels of the merged units;
@@ -44,7 +46,7 @@ TIERS = {
 }
 RULE = ("case = seeded history of 5..60 operations (new, add, add zero-length, add_annotator, remove present / absent, merge in place / "
         "out of place, +, copy, copy_flush, reset_bounds, add_timeline, add_annotation, [] access) over <= 4 live continua, 3 annotators, "
-        "6 segments (incl. negative start, shared start or end, nested), labels {None,'a','b'}; all observables compared with the "
+        "6 segments (incl. negative start, shared start or end, nested), labels {None,'a','b'}; all observables (incl. the derived counts avg/max units per annotator, average unit length, category weights) compared with the "
         "reference model after every operation. distinct_nontrivial = distinct model states (content of all live continua) reached "
         "that hold >= 2 units")
 ASSUMPTIONS = [
@@ -132,6 +134,27 @@ def observe_and_compare(lib, m, tag):
             raise Mismatch("counts", f"{tag}: num_units={lib.num_units}, model {m.num_units()}")
         if bool(lib) != (m.num_units() > 0):
             raise Mismatch("counts", f"{tag}: bool()={bool(lib)} with {m.num_units()} units")
+        # derived counts (consumed by the samplers, the fast mode and the CST): judged against the model's sets
+        sizes = [len(m.units(a)) for a in annotators]
+        if annotators:
+            got_max = int(lib.max_num_annotations_per_annotator)
+            if got_max != max(sizes):
+                raise Mismatch("counts", f"{tag}: max_num_annotations_per_annotator={got_max}, model {max(sizes)}")
+            got_avg = float(lib.avg_num_annotations_per_annotator)
+            if abs(got_avg - sum(sizes) / len(sizes)) > 1e-12:
+                raise Mismatch("counts", f"{tag}: avg_num_annotations_per_annotator={got_avg}, model {sum(sizes) / len(sizes)}")
+        if flat:
+            want_len = sum(u[1] - u[0] for _, u in flat) / len(flat)
+            got_len = float(lib.avg_length_unit)
+            if abs(got_len - want_len) > 1e-9 * max(1.0, abs(want_len)):
+                raise Mismatch("counts", f"{tag}: avg_length_unit={got_len}, model {want_len}")
+            cw = dict(lib.category_weights) if all(u[2] is not None for _, u in flat) else None
+            if cw is not None:
+                want_cw = {}
+                for _, u in flat:
+                    want_cw[u[2]] = want_cw.get(u[2], 0) + 1 / len(flat)
+                if set(cw) != set(want_cw) or any(abs(cw[k] - want_cw[k]) > 1e-9 for k in cw):
+                    raise Mismatch("counts", f"{tag}: category_weights={cw}, model {want_cw}")
         cats = list(lib.categories)
         if cats != sorted(cats) or len(set(cats)) != len(cats):
             raise Mismatch("categories", f"{tag}: categories not a sorted set: {cats}")
